@@ -10257,21 +10257,26 @@ simplifier_insert_input_roots(simplifier_t *self)
     tsk_segment_t *x;
     tsk_size_t num_flushed_edges;
     double youngest_root_time = DBL_MAX;
-    const double *node_time = self->tables->nodes.time;
+    double root_time;
+    bool new_node;
+    bool filter_nodes = !(self->options & TSK_SIMPLIFY_NO_FILTER_NODES);
 
     for (input_id = 0; input_id < (tsk_id_t) self->input_tables.nodes.num_rows;
          input_id++) {
         x = self->ancestor_map_head[input_id];
         if (x != NULL) {
             output_id = self->node_id_map[input_id];
+            new_node = false;
             if (output_id == TSK_NULL) {
                 output_id = simplifier_record_node(self, input_id);
                 if (output_id < 0) {
                     ret = (int) output_id;
                     goto out;
                 }
+                new_node = true;
             }
-            youngest_root_time = TSK_MIN(youngest_root_time, node_time[output_id]);
+            /* NOTE: the node time column may be realloced by record_node */
+            root_time = self->tables->nodes.time[output_id];
             while (x != NULL) {
                 if (x->node != output_id) {
                     ret = simplifier_record_edge(self, x->left, x->right, x->node);
@@ -10286,6 +10291,16 @@ simplifier_insert_input_roots(simplifier_t *self)
             ret = simplifier_flush_edges(self, output_id, &num_flushed_edges);
             if (ret != 0) {
                 goto out;
+            }
+            if (filter_nodes && new_node && num_flushed_edges == 0) {
+                /* All of the root edges were discarded (reduce_to_site_topology),
+                 * so the node we just added is unreferenced. */
+                ret = simplifier_rewind_node(self, input_id, output_id);
+                if (ret != 0) {
+                    goto out;
+                }
+            } else {
+                youngest_root_time = TSK_MIN(youngest_root_time, root_time);
             }
         }
     }
